@@ -49,8 +49,8 @@ type stubInput struct {
 }
 
 func (s *stubInput) Start(pipeline.AnyConfig, *pipeline.InputPluginParams) {}
-func (s *stubInput) Stop()                                               {}
-func (s *stubInput) Commit(*pipeline.Event)                              {}
+func (s *stubInput) Stop()                                                 {}
+func (s *stubInput) Commit(*pipeline.Event)                                {}
 func (s *stubInput) PassEvent(e *pipeline.Event) bool {
 	s.seen = append(s.seen, e)
 	s.seenDoc = append(s.seenDoc, e.Root.EncodeToString())
